@@ -75,6 +75,55 @@ theorem class_serialize_pure_json (O : Oracles) (c : ClassOpts) (fields : List (
     intro a ha; exact (List.all_eq_true.mp hnn) a ha)
   simp [serialize, ser, sInst, hfil, g1]
 
+/-- **C05 (class level)**: for every class declaration and every instance of the fragment —
+    nested Structure classes and `Optional` fields at any depth, unset optional fields included —
+    `Serializer(x).serialize()` is a pure-JSON object and `Deserializer(cls).deserialize` of it
+    returns exactly `x`, for every setting of the deserialization flags -/
+theorem class_round_trip_partial (O : Oracles) (opts : DeserOpts) (c : ClassOpts)
+    (fields : List (String × FieldDecl)) (defaults : List (String × PyVal)) (x : PyVal)
+    (hf : inFrag O (.struct c fields defaults) x = true) :
+    ∃ j, serialize O (.struct c fields defaults) x = .ok j ∧ isJson j = true
+      ∧ deserialize O opts (.struct c fields defaults) j = .ok x := by
+  have hf' := hf
+  simp only [inFrag, and_true_iff] at hf
+  obtain ⟨⟨⟨hinl, hacc⟩, _⟩, hv⟩ := hf
+  cases x with
+  | inst n attrs =>
+    have hc : conforms O (.struct c fields defaults) (.inst n attrs) = true := by
+      simp only [and_true_iff] at hv
+      have hn' : n = c.name := by simpa using hv.1.1
+      have hinl' : c.inline = false := by simpa using hinl
+      simp [conforms, hinl', aClassRef, hn']
+      simpa using hacc
+    rcases round_trip O opts (.struct c fields defaults) (.inst n attrs) hc hf' with ⟨j, h1, h2, _, h4, _⟩
+    -- the document is an object: `serialize_internal` returns a dict
+    have hj : ∃ r, j = .dict r := by
+      simp only [ser, sInst] at h1
+      split at h1
+      · cases h1
+      · rcases bindE_eq_ok h1 with ⟨r, _, hr⟩
+        exact ⟨r, by cases hr; rfl⟩
+    rcases hj with ⟨r, rfl⟩
+    refine ⟨.dict r, h1, h2, ?_⟩
+    -- `deserialize` is the class-reference branch of `deser` applied to an object document
+    have hinl' : c.inline = false := by simpa using hinl
+    simp only [deser, hinl', PyVal.isNone, Bool.false_and, Bool.false_eq_true, if_false, dClassRef] at h4
+    simp only [deserialize]
+    exact h4
+  | _ => simp at hv
+
+/-- an unset optional field stays unset and a set `Optional` field keeps its value -/
+theorem optional_survives (O : Oracles) (opts : DeserOpts) (g : FieldDecl) (v : PyVal)
+    (hn : v.isNone = false) (hc : conforms O g v = true) (hf : inFrag O g v = true) :
+    ∃ j, ser O (.anyOf [.noneF, g]) v = .ok j ∧ isJson j = true
+      ∧ deser O opts false (.anyOf [.noneF, g]) j = .ok v := by
+  have hf' : inFrag O (.anyOf [.noneF, g]) v = true := by
+    simp [inFrag, inFragOpt, isNoneF, hn, hc, hf]
+  have hc' : conforms O (.anyOf [.noneF, g]) v = true := by
+    simp [conforms, conformsAny, hc]
+  rcases round_trip O opts _ v hc' hf' with ⟨j, h1, h2, _, h4, _⟩
+  exact ⟨j, h1, h2, h4⟩
+
 /-! ### falsy values survive; non-vacuity -/
 
 def exO : Oracles := { reMatch := fun _ _ => true }
@@ -110,6 +159,26 @@ theorem round_trip_example :
     ∧ (match ser exO exDecl exVal with
         | .ok j => isJson j && (match deser exO {} false exDecl j with
             | .ok (.deque [.tuple [.enumv "Color" "BLUE", _, _], .tuple [.enumv "Color" "RED", _, .list []]]) => true
+            | _ => false)
+        | .error _ => false) = true := by
+  decide
+
+/-- a two-level class: `Outer(n: Inner, tag: Optional[String], xs: Array[Integer])` with the
+    optional field unset in the nested instance -/
+def exInner : FieldDecl :=
+  .struct { name := "Inner", required := ["a"], accepts := ["Inner"] }
+    [("a", .integer {}), ("b", .anyOf [.noneF, .string none none none])] []
+def exOuter : FieldDecl :=
+  .struct { name := "Outer", required := ["n"], accepts := ["Outer"], addl := false }
+    [("n", exInner), ("tag", .anyOf [.noneF, .string none none none]), ("xs", .seqOf .list (.integer {}) {})] []
+def exInst : PyVal :=
+  .inst "Outer" [("n", .inst "Inner" [("a", .int 0)]), ("tag", .str ""), ("xs", .list [])]
+
+theorem class_round_trip_example :
+    inFrag exO exOuter exInst = true
+    ∧ (match serialize exO exOuter exInst with
+        | .ok j => isJson j && (match deserialize exO {} exOuter j with
+            | .ok (.inst "Outer" [("n", .inst "Inner" [("a", .int 0)]), ("tag", .str ""), ("xs", .list [])]) => true
             | _ => false)
         | .error _ => false) = true := by
   decide
